@@ -3,6 +3,7 @@
 mod c13;
 mod exec;
 mod rng;
+mod stransport;
 mod vclock;
 
 use exec::{write_cases, Case};
